@@ -132,7 +132,8 @@ class C49(dst.Check):
             sv = C49._server
             if sv is None or sv.poll() is not None:
                 sv = C49._server = subprocess.Popen([exe, 'server'], stdin=subprocess.PIPE, stdout=subprocess.PIPE,
-                                                    stderr=subprocess.STDOUT, start_new_session=True)
+                                                    stderr=subprocess.STDOUT, start_new_session=True,
+                                                    preexec_fn=dst._die_with_parent)
             try:
                 sv.stdin.write((' '.join(args) + '\n').encode())
                 sv.stdin.flush()
